@@ -35,10 +35,16 @@ func serviceRandom(fl *drv.Flags, rng *rand.Rand, w *chain.TraceWriter) {
 	maxCtx := int(fl.CfgInt("maxctx", 4))
 	varDt := fl.CfgInt("vardt", 1) == 1
 	mods := fl.CfgInt("mods", 1) == 1 // module-owned contexts (keeper calls inside carrier transactions)
+	// btc=1: prices in a second denom with an exchange rate served by the harness'
+	// module service, calls of that module service, owner-wide withdrawals
+	btc := fl.CfgInt("btc", 0) == 1 && mods
+	if btc {
+		svcs = append(svcs, "oracle-price")
+	}
 	setPricing := func(ev chain.M, now int64) {
 		ev["price"] = int64(rng.Intn(9))
-		if rng.Intn(14) == 0 {
-			// a price in a denom that needs the oracle's exchange rate (none exists)
+		if rng.Intn(14) == 0 || (btc && rng.Intn(3) == 0) {
+			// a price in a denom that needs the exchange rate of the module service
 			ev["pdenom"] = "btc"
 			if rng.Intn(2) == 0 {
 				ev["price"] = int64(0)
@@ -76,6 +82,14 @@ func serviceRandom(fl *drv.Flags, rng *rand.Rand, w *chain.TraceWriter) {
 		active := st["active"].([]any)
 		reqs := st["req"].(chain.M)
 		var pending []chain.M
+		if btc && (b == 0 || rng.Intn(12) == 0) {
+			ev := svcEvent("SetRate", "")
+			ev["rn"], ev["rd"] = int64(rng.Intn(4)), []int64{1, 2, 4}[rng.Intn(3)]
+			if b == 0 && rng.Intn(4) > 0 {
+				ev["rn"] = int64(1 + rng.Intn(3))
+			}
+			pending = append(pending, ev)
+		}
 		n := rng.Intn(5)
 		if b < 2 {
 			n = 3 + rng.Intn(3)
@@ -290,6 +304,15 @@ func serviceRandom(fl *drv.Flags, rng *rand.Rand, w *chain.TraceWriter) {
 			default:
 				earned := chain.SortedKeys(st["earned"].(chain.M))
 				owner := st["owner"].(chain.M)
+				if btc && rng.Intn(4) == 0 {
+					// the keeper's owner-wide withdrawal, only while the owner's tally is what its
+					// providers earned (after finding F29 it would pay out other people's money)
+					o := pick(provs)
+					if tallyConsistent(st, o) {
+						pending = append(pending, svcEvent("ModWithdrawAll", o))
+						continue
+					}
+				}
 				ev := svcEvent("Withdraw", pick(provs))
 				if len(earned) > 0 && rng.Intn(4) > 0 {
 					p := pick(earned)
@@ -355,4 +378,27 @@ func (e *env) burst(rng *rand.Rand, st chain.M) []chain.M {
 		out = append(out, ev)
 	}
 	return out
+}
+
+// tallyConsistent: the owner-side tally of o equals the sum of its providers' tallies.
+func tallyConsistent(st chain.M, o string) bool {
+	sum := map[string]int64{}
+	owner := st["owner"].(chain.M)
+	for p, row := range st["earned"].(chain.M) {
+		if ow, _ := owner[p].(string); ow == o {
+			for d, v := range row.(chain.M) {
+				sum[d] += v.(int64)
+			}
+		}
+	}
+	own, _ := st["ownerEarned"].(chain.M)[o].(chain.M)
+	if len(own) != len(sum) {
+		return false
+	}
+	for d, v := range own {
+		if sum[d] != v.(int64) {
+			return false
+		}
+	}
+	return true
 }
